@@ -111,3 +111,18 @@ Proof.
   split; [eexists; eexists; split; vm_compute; reflexivity|].
   split; [vm_compute; reflexivity|]. split; vm_compute; reflexivity.
 Qed.
+
+(* the reserved bits 5-6 of a base-type byte: types.Base.Known ignores them (so does [compat]) and the validator admits
+   the definition, but parseFitField switches on the whole byte and rejects the data record: the side condition
+   [canon_bt] inside [stream_wf] is needed *)
+Definition w_reserved : list record :=
+  [w_fileid_def; w_fileid; RDef 1 false 34 [mk_sfdef 6 1 0x22] false []; RData 1 [7] []].
+
+Theorem decode_denote_reserved_bits_refuted :
+  all_bytes (ser_records w_reserved) = true /\ stream_wf w_reserved = false /\ no_time_quirk w_reserved = true /\
+  (exists a, spec_slots w_reserved = Some a) /\
+  match model_run w_reserved with RFail EParseField _ _ => True | _ => False end.
+Proof.
+  split; [vm_compute; reflexivity|]. split; [vm_compute; reflexivity|]. split; [vm_compute; reflexivity|].
+  split; [eexists; vm_compute; reflexivity|]. vm_compute. exact I.
+Qed.
